@@ -51,6 +51,7 @@ var zzClasses = map[string]zzClass{
 	"10.60.0.0/33":    {},
 	"10.60.0.0/16x":   {},
 	"127.0.0.8/24":    {cidr: true},
+	"::1":             {host: true, ip: true},
 	"[1, 2]":          {},
 }
 
